@@ -83,11 +83,16 @@ def cmrNode (jetCmr : String → Option Nat) (cm : Nat → Nat) : Node → Optio
   | .jet name => jetCmr name
   | .hidden h => some h
 
+def cmrsGo (jetCmr : String → Option Nat) : List Node → Array Nat → Option (Array Nat)
+  | [], acc => some acc
+  | nd :: rest, acc =>
+    match cmrNode jetCmr (fun i => acc.getD i 0) nd with
+    | some c => cmrsGo jetCmr rest (acc.push c)
+    | none => none
+
 /-- commitment roots of all nodes of a plan -/
 def cmrs (jetCmr : String → Option Nat) (p : Plan) : Option (Array Nat) :=
-  p.foldlM (init := #[]) fun acc nd => do
-    let c ← cmrNode jetCmr (fun i => acc.getD i 0) nd
-    pure (acc.push c)
+  cmrsGo jetCmr p.toList #[]
 
 def hex32 (n : Nat) : String := Drv.showHex (bytesOfNat n 32)
 
